@@ -327,26 +327,19 @@ Section Reset.
   Hypothesis Hm1 : forall x, memo_get m1 x = if mem_uid x rm then None else memo_get (a_memo A) x.
 
   Definition memo_after : list (uid * entry) :=
-    filter (fun e => negb (mem_uid (fst e) all)) m1.
+    filter (fun e => negb (mem_slot (u_slot (fst e)) (map u_slot all))) m1.
 
   Lemma memo_after_get : forall x e, memo_get memo_after x = Some e ->
     ~ In x all /\ memo_get (a_memo A) x = Some e.
   Proof.
     intros x e H; unfold memo_after in H.
-    rewrite (memo_get_filter (fun v => negb (mem_uid v all)) m1 x) in H.
-    destruct (mem_uid x all) eqn:Hm; cbn [negb] in H; [discriminate|].
-    apply mem_uid_false in Hm. split; [assumption|].
-    rewrite Hm1 in H. destruct (mem_uid x rm); [discriminate | assumption].
-  Qed.
-
-  Lemma memo_after_survivor : forall x e, memo_get (a_memo A) x = Some e -> ~ In x all ->
-    memo_get memo_after x = Some e.
-  Proof.
-    intros x e H Hx; unfold memo_after.
-    rewrite (memo_get_filter (fun v => negb (mem_uid v all)) m1 x).
-    replace (mem_uid x all) with false by (symmetry; apply mem_uid_false; assumption). cbn [negb].
-    rewrite Hm1. replace (mem_uid x rm) with false; [assumption|].
-    symmetry; apply mem_uid_false; apply (not_all_not_rm x Hx).
+    rewrite (memo_get_filter (fun v => negb (mem_slot (u_slot v) (map u_slot all))) m1 x) in H.
+    destruct (mem_slot (u_slot x) (map u_slot all)) eqn:Hm; cbn [negb] in H; [discriminate|].
+    split.
+    - intros Hc. assert (Ht : mem_slot (u_slot x) (map u_slot all) = true).
+      { apply mem_slot_In; apply in_map; assumption. }
+      congruence.
+    - rewrite Hm1 in H. destruct (mem_uid x rm); [discriminate | assumption].
   Qed.
 
   Lemma rr_maps_users : forall a b, In (a, b) (users_of (rr_maps rr)) <->
